@@ -67,6 +67,14 @@ FUNCS = [
     ("aldrin/src/lifetime.rs", "impl LifetimeListener {", "start"),
     ("aldrin/src/handle.rs", "impl Handle {", "find_object"),
     ("aldrin/src/handle.rs", "impl Handle {", "wait_for_object"),
+    ("aldrin/src/bus_listener.rs", "impl BusListener {", "start"),
+    ("aldrin/src/bus_listener.rs", "impl BusListener {", "stop"),
+    ("aldrin/src/bus_listener.rs", "impl BusListener {", "is_finished"),
+    ("aldrin/src/bus_listener.rs", "impl BusListener {", "poll_next_event"),
+    ("aldrin/src/bus_listener.rs", "impl BusListener {", "includes_new"),
+    ("aldrin/src/bus_listener.rs", "impl BusListenerHandle {", "start"),
+    ("aldrin/src/bus_listener.rs", "impl BusListenerHandle {", "stop"),
+    ("aldrin/src/bus_listener.rs", "impl BusListenerHandle {", "current_finished"),
     ("aldrin/src/bus_listener.rs", "impl BusListenerHandle {", "emit_current"),
     ("aldrin/src/bus_listener.rs", "impl BusListenerHandle {", "emit_new_if_matches"),
     ("aldrin/src/bus_listener.rs", "impl BusListenerHandle {", "matches_filters"),
@@ -125,6 +133,14 @@ EXPECTED = {
     "aldrin/src/lifetime.rs::impl LifetimeListener {::start": "48a254f48315bb02",
     "aldrin/src/handle.rs::impl Handle {::find_object": "ca92a7edab6f3bca",
     "aldrin/src/handle.rs::impl Handle {::wait_for_object": "acc1a3aae797b90a",
+    "aldrin/src/bus_listener.rs::impl BusListener {::start": "d461ec4d4e6e8d65",
+    "aldrin/src/bus_listener.rs::impl BusListener {::stop": "495f2b0c01e54400",
+    "aldrin/src/bus_listener.rs::impl BusListener {::is_finished": "68cd62d50d68a2d8",
+    "aldrin/src/bus_listener.rs::impl BusListener {::poll_next_event": "b835546625e321c4",
+    "aldrin/src/bus_listener.rs::impl BusListener {::includes_new": "6880be4c6f9c17ee",
+    "aldrin/src/bus_listener.rs::impl BusListenerHandle {::start": "ba3f1ec17feafdae",
+    "aldrin/src/bus_listener.rs::impl BusListenerHandle {::stop": "740b717f0aeab308",
+    "aldrin/src/bus_listener.rs::impl BusListenerHandle {::current_finished": "767fd6b2024f1121",
     "aldrin/src/bus_listener.rs::impl BusListenerHandle {::emit_current": "7dd53cec06af4fa4",
     "aldrin/src/bus_listener.rs::impl BusListenerHandle {::emit_new_if_matches": "19a4613bc6b6a111",
     "aldrin/src/bus_listener.rs::impl BusListenerHandle {::matches_filters": "8e486799fb2b2c6e",
